@@ -45,6 +45,8 @@ func (r Rule) String() string {
 		return fmt.Sprintf("byz-future-votes(h%d r%d->r%d)", r.h(), r.Round, r.Round+1)
 	case "byz-fresh":
 		return fmt.Sprintf("byz-fresh-proposal(h%d r%d)", r.h(), r.Round)
+	case "dev":
+		return fmt.Sprintf("deviate(decision %d,alt %d)", r.K, r.Delay)
 	case "byz-mutate":
 		return fmt.Sprintf("byz-proposes-mutant(h%d r%d,%s)", r.h(), r.Round, r.Alt)
 	}
